@@ -284,6 +284,50 @@ namespace c13
         cmp_vec(3, "Muxer::split", true, [&](int, Index b, int c) { return (long double)val_v(b, c); }, zero);
       }
       break;
+    case op_misc:
+      {
+        auto ATu = [&](Index b, int c) { long double s2 = 0; for(Index j = 0; j < B.N; ++j) for(int q = 0; q < bs; ++q) s2 += (long double)B.a(j, b) * (bs == 1 ? 1.0 : blockB(q, c)) * val_u(j, q); return s2; };
+        auto absATu = [&](Index b, int c) { long double s2 = 0; for(Index j = 0; j < B.N; ++j) for(int q = 0; q < bs; ++q) s2 += fabsl((long double)B.a(j, b) * (bs == 1 ? 1.0 : blockB(q, c)) * val_u(j, q)); return s2; };
+        long double nnz = 0; for(int r = 0; r < P; ++r) nnz += (long double)w.ranks[size_t(r)]->A0.used_elements() * (long double)(bs * bs);
+        cmp_scal(0, "Matrix::rows", true, (long double)B.N * bs, 0); cmp_scal(1, "Matrix::columns", true, (long double)B.N * bs, 0);
+        cmp_scal(2, "Matrix::used_elements", true, nnz, 0); cmp_scal(3, "Vector::size", true, (long double)B.N * bs, 0);
+        cmp_scal(4, "Matrix::rows<native>", true, (long double)B.N, 0); cmp_scal(5, "bytes() > 0", true, 1.0L, 0);
+        cmp_vec(0, "Matrix::apply_transposed", true, [&](int, Index b, int c) { return ATu(b, c); }, zero);
+        cmp_vec(1, "Matrix::apply_transposed(r,x,y,alpha)", p2, [&](int, Index b, int c) { return (long double)val_v(b, c) + 0.5L * ATu(b, c); }, [&](int, Index b, int c) { return fabsl((long double)val_v(b, c)) + absATu(b, c); });
+        double mn = 1e300, mxe = -1e300, mne = 1e300;
+        for(Index i = 0; i < B.N; ++i) for(int c = 0; c < bs; ++c) { mn = std::min(mn, fabs(val_u(i, c))); mxe = std::max(mxe, val_u(i, c)); mne = std::min(mne, val_u(i, c)); }
+        cmp_scal(6, "min_abs_element_async", true, mn, 0); cmp_scal(7, "max_element_async", true, mxe, 0); cmp_scal(8, "min_element_async", true, mne, 0);
+        size_t ks = 9;
+        if(bs == 2)
+        {
+          auto RTu = [&](Index b, int c) { long double s2 = 0; for(Index j = 0; j < B.N; ++j) for(int q = 0; q < 2; ++q) s2 += (long double)B.a(j, b) * blockR(q, c) * val_u(j, q); return s2; };
+          auto absRTu = [&](Index b, int c) { long double s2 = 0; for(Index j = 0; j < B.N; ++j) for(int q = 0; q < 2; ++q) s2 += fabsl((long double)B.a(j, b) * blockR(q, c) * val_u(j, q)); return s2; };
+          cmp_vec_n(2, "rect-block Matrix::apply_transposed", true, 3, [&](int, Index b, int c) { return RTu(b, c); }, zero);
+          cmp_vec_n(3, "rect-block Matrix::apply_transposed(r,x,y,alpha)", p2, 3, [&](int, Index b, int c) { return (long double)val_v(b, c) - 0.5L * RTu(b, c); }, [&](int, Index b, int c) { return fabsl((long double)val_v(b, c)) + absRTu(b, c); });
+          cmp_scal(9, "rect-block Matrix::rows", true, (long double)B.N * 2, 0); cmp_scal(10, "rect-block Matrix::columns", true, (long double)B.N * 3, 0);
+          ks = 11;
+        }
+        if(!(P == 1 && w.cfg.renum != 0))
+        {
+          cmp_vec(4, "Splitter::join_write_out + split_read_from", p2, [&](int, Index b, int c) { return (long double)val_v(b, c); }, [&](int, Index b, int c) { return (long double)fabs(val_v(b, c)); });
+          cmp_vec(5, "Splitter converted to float/unsigned: split", true, [&](int, Index b, int c) { return (long double)val_u(b, c); }, zero);
+          cmp_scal(ks, "Splitter::bytes", true, 1.0L, 0);
+        }
+      }
+      break;
+    case op_meanfilter:
+      if(bs == 1)
+      {
+        auto fp = [](Index b) { return (long double)(1.0 + 0.5 * double(b % 3)); };
+        auto fd = [](Index b) { return (long double)(0.25 * double(1 + (b % 4))); };
+        long double vol = 0, iu = 0, iv = 0, au = 0, av = 0;
+        for(Index i = 0; i < B.N; ++i) { vol += fp(i) * fd(i); iu += (long double)val_u(i, 0) * fp(i); au += fabsl((long double)val_u(i, 0) * fp(i)); iv += (long double)val_v(i, 0) * fd(i); av += fabsl((long double)val_v(i, 0) * fd(i)); }
+        cmp_scal(0, "MeanFilter volume", p2, vol, vol); cmp_scal(1, "cloned MeanFilter volume", p2, vol, vol);
+        cmp_vec(0, "MeanFilter::filter_rhs", false, [&](int, Index b, int) { return (long double)val_u(b, 0) - fd(b) * iu / vol; }, [&](int, Index b, int) { return fabsl((long double)val_u(b, 0)) + fd(b) * au / vol; });
+        cmp_vec(1, "MeanFilter::filter_sol", false, [&](int, Index b, int) { return (long double)val_v(b, 0) - fp(b) * iv / vol; }, [&](int, Index b, int) { return fabsl((long double)val_v(b, 0)) + fp(b) * av / vol; });
+        cmp_vec(2, "MeanFilter::filter_def applied twice (clone)", false, [&](int, Index b, int) { return (long double)val_u(b, 0) - fd(b) * iu / vol; }, [&](int, Index b, int) { return 4 * (fabsl((long double)val_u(b, 0)) + fd(b) * au / vol); });
+      }
+      break;
     case op_pcg:
       {
         long double nx = 0; for(double v : p1.x) nx = std::max(nx, fabsl((long double)v));
@@ -374,6 +418,7 @@ namespace c13
       if(op == op_pcg && !bd.do_pcg) continue;
       if(op == op_to1 && !bd.do_to1) continue;
       if((op == op_rect_apply || op == op_rect_to1) && BS_ != 2) continue;
+      if(op == op_meanfilter && BS_ != 1) continue;
       if(op == op_splitter && P == 1) { bool ident = true; for(Index j = 0; j < w.ranks[0]->ndofs; ++j) ident = ident && (w.ranks[0]->p2b[size_t(j)] == j); if(!ident) continue; }
       if(op == op_pcg && !have_p1) { p1 = solve_base(w); Statistics::reset(); have_p1 = true; }
       const std::string pre = std::to_string(mode) + ":" + std::to_string(op) + ":";
@@ -475,27 +520,6 @@ namespace c13
     }
   }
 
-  /// iterates all surjective maps {0..n-1} -> {0..p-1}
-  inline bool next_assign(std::vector<int>& a, int p)
-  {
-    for(;;)
-    {
-      size_t i = 0;
-      while(i < a.size() && a[i] == p - 1) { a[i] = 0; ++i; }
-      if(i == a.size()) return false;
-      ++a[i];
-      std::vector<char> seen(size_t(p), 0); int ns = 0;
-      for(int x : a) if(!seen[size_t(x)]) { seen[size_t(x)] = 1; ++ns; }
-      if(ns == p) return true;
-    }
-  }
-  inline bool first_assign(std::vector<int>& a, size_t n, int p)
-  {
-    a.assign(n, 0);
-    if(p == 1) return n > 0;
-    if(size_t(p) > n) return false;
-    return next_assign(a, p);
-  }
 } // namespace c13
 
 // ---------------------------------------------------------------------------------------------------
@@ -524,7 +548,7 @@ namespace c13
     spec.property = "C13";
     spec.harness = C13_HARNESS;
     spec.rule = "case = (base mesh, joint refinements, ranks P, surjective cell->rank assignment, space in {Lagrange1, Lagrange2, CroRavRanTur, DiscontinuousP0}, "
-      "vector kind in {scalar, blocked<2>}, patch numbering natural / scrambled (reversed, rotated, FEAT random permutation: mirror index arrays not ascending)); per case both send modes x 20 operations (single synchronisations; several tickets in flight; repeated use of one gate; converted / moved / cloned gates, vectors, matrices; alpha in {0,1,-1}; 2^500, denormal, all-negative, zero data; empty mirrors pushed; Splitter and Muxer) (incl. BCSR<2,2> and rectangular BCSR<2,3> matrices for the blocked kind) of the real Global::Gate/Vector/Matrix/Filter/PCG on P rank threads over the MPI model; "
+      "vector kind in {scalar, blocked<2>}, patch numbering natural / scrambled (reversed, rotated, FEAT random permutation: mirror index arrays not ascending)); per case both send modes x 22 operations (single synchronisations; several tickets in flight; repeated use of one gate; converted / moved / cloned gates, vectors, matrices; alpha in {0,1,-1}; 2^500, denormal, all-negative, zero data; empty mirrors pushed; Splitter and Muxer incl. float conversion and the file round trip; apply_transposed incl. rectangular blocks; global size/accessor functions; asynchronous min/max; Global::MeanFilter) (incl. BCSR<2,2> and rectangular BCSR<2,3> matrices for the blocked kind) of the real Global::Gate/Vector/Matrix/Filter/PCG on P rank threads over the MPI model; "
       "per operation every MPI_Waitany answer sequence (full product of the arrival orders of all ranks; <= D deviations for the PCG run) is executed and compared with a "
       "base-level oracle. Non-trivial = P >= 2 and at least one base dof shared between patches, hashed by the case description.";
 #if C13_FAMILY == 0
@@ -554,6 +578,7 @@ namespace c13
         CPU_SET(int(c._me % ncpu), &set);
         sched_setaffinity(0, sizeof(set), &set);
       }
+      if(system("mkdir -p /verif/build/scratch/c13_sync") != 0) return;
       struct Plan { vm::MeshSpec ms; int refine; int pmax; int stride3; int stride4; };  // strideN: take every n-th assignment for P=N (1 = all, 0 = only the identity-like first one with P == cells)
       std::vector<Plan> plans;
 #if C13_FAMILY == 0
